@@ -1,6 +1,8 @@
 """C02 case generator: tensor view adaptors and their compositions.
    (2 1 term probes writes) [dynamic interpreter] and (2 2 term probes writes) [the same term built
-   with concrete adaptor types] -- term language documented in coq/theories/Run/RunC02.v:
+   with concrete adaptor types] and (2 3 term shape' probes writes) [renames / reversals over one tensor
+   leaf; the leaf is reshaped through source_ref_mut() after construction, then the same view object
+   is observed] -- term language documented in coq/theories/Run/RunC02.v:
    (0 id shape) leaf | (1 t params) range | (2 t params) mask | (3 t ((name idx)..)) index |
    (4 t ((pos name)..)) expansion | (5 t names) rename | (6 t names) reverse | (7 t names) access |
    (8 t names) transpose | (9 (t..) pos name kind) stack | (10 (t..) name kind) chain |
@@ -379,6 +381,14 @@ def single_adaptors(base, shape, rng, alpha, exhaustive):
     if D + 3 <= 6:
         for ps in itertools.product(range(D + 1), repeat=3):
             yield [4, base, [[ps[0], 7], [ps[1], 8], [ps[2], 6]]]
+            # a repeated extra name in every arrangement (adjacent or not, before / after sorting)
+            for nm in ((7, 8, 7), (7, 7, 8), (8, 7, 7)):
+                yield [4, base, [[ps[0], nm[0]], [ps[1], nm[1]], [ps[2], nm[2]]]]
+    if D + 4 <= 6:
+        for _ in range(12):
+            ps = [rng.randrange(D + 1) for _ in range(4)]
+            nm = rng.choice([(7, 8, 6, 5), (7, 8, 6, 7), (7, 8, 7, 6), (7, 7, 8, 6), (8, 7, 6, 7), (6, 8, 8, 7)])
+            yield [4, base, [[p, n] for p, n in zip(ps, nm)]]
     # --- rename
     fresh = [5, 6, 7, 8][:D]
     yield [5, base, fresh]
@@ -437,6 +447,16 @@ def stack_chain(base, shape, rng, others):
                 yield [10, srcs, nm, kind]
             if D == 0:
                 yield [10, srcs, 0, kind]
+    if base[0] == 0 and D >= 1:
+        for k, nm in enumerate(names):
+            for pattern in ((1, 3, 1, 3), (2, 3, 1, 2), (1, 2, 3, 1), (3, 1, 2, 3), (2, 1, 3), (1, 3, 2), (3, 2, 1)):
+                srcs = []
+                for j, ln in enumerate(pattern):
+                    sh2 = [list(d) for d in shape]
+                    sh2[k][1] = ln
+                    srcs.append([0, 10 * j + 1, sh2])
+                for kind in (0, 1):
+                    yield [10, srcs, nm, kind]
     for o in others:
         for kind in (0, 1):
             srcs = [base, relabel(o, 50)]
@@ -564,7 +584,10 @@ def mutate_invalid(t, rng):
         t[2] = ps
     elif tag == 4:
         es = [list(e) for e in t[2]]
-        es[0][0] = 7
+        if len(es) >= 2 and rng.random() < 0.6:
+            es[-1][1] = es[0][1]      # repeated extra name (not necessarily adjacent)
+        else:
+            es[0][0] = 7
         t[2] = es
     elif tag == 9:
         t[2] = 7
@@ -650,6 +673,63 @@ def static_terms(rng, n):
             rest = [n for n in names if n != names[d]]
             rng.shuffle(rest)
             yield [7, [3, leaf(1, lens, names), [[names[d], i]]], rest]
+
+
+# ---------------------------------------------------------------- source mutation (op 3)
+
+def factorizations(total, D, maxlen=6):
+    if D == 0:
+        return [[]] if total == 1 else []
+    out = []
+    for l in range(1, maxlen + 1):
+        if total % l == 0:
+            out += [[l] + r for r in factorizations(total // l, D - 1, maxlen)]
+    return out
+
+
+def mutation_cases(rng, quick):
+    """(2 3 term shape' probes writes): renames / reversals over one tensor leaf, the leaf reshaped
+    through source_ref_mut() after construction (different lengths / names, same element count;
+    plus invalid new shapes, which reshape_mut must refuse without changing anything)"""
+    def rev(t, names):
+        return [6, t, rng.sample(names, rng.randrange(0, len(names) + 1)) if names else []]
+
+    def ren(t, names):
+        return [5, t, rng.sample(range(9), len(names))]
+
+    skeletons = ["6", "5", "65", "56", "66", "55", "656", "565"]     # outermost first
+    for D in (1, 2, 3):
+        for lens in shapes_upto(D, 3):
+            total = 1
+            for l in lens:
+                total *= l
+            news = [f for f in factorizations(total, D)]
+            for sk in skeletons:
+                for _ in range(1 if quick and D == 3 else 2):
+                    names = rng.sample(range(6), D)
+                    t = [0, rng.choice([1, 2]), [[n, l] for n, l in zip(names, lens)]]
+                    for ch in reversed(sk):
+                        cur = [n for n, _ in pshape(t)]
+                        t = rev(t, cur) if ch == "6" else ren(t, cur)
+                    picks = rng.sample(news, min(len(news), 3 if quick else 8))
+                    if lens[::-1] in news and lens[::-1] not in picks:
+                        picks.append(lens[::-1])
+                    for nl in picks:
+                        nn = rng.sample(range(6), D) if rng.random() < 0.5 else names
+                        shape2 = [[n, l] for n, l in zip(nn, nl)]
+                        yield sx([2, 3, t, shape2, probes_for(shape2, rng, cap=60), writes_for(shape2, rng)])
+                    # refused reshapes: wrong element count, zero length, duplicate names
+                    bad = [[n, l] for n, l in zip(names, lens)]
+                    r = rng.randrange(3)
+                    if r == 0:
+                        bad[0][1] += 1
+                    elif r == 1:
+                        bad[0][1] = 0
+                    elif D >= 2:
+                        bad[1][0] = bad[0][0]
+                    else:
+                        bad[0][1] += 2
+                    yield sx([2, 3, t, bad, [[0] * D], []])
 
 
 # ---------------------------------------------------------------- the generator
@@ -802,6 +882,9 @@ def gen(tier, rng):
                             c = case(o2, rng, full=False)
                             if c:
                                 yield c
+    # 8. source mutation through source_ref_mut(), op 3
+    for c in mutation_cases(rng, quick):
+        yield c
     # 6. static (non-erased) compositions, op 2
     for t in static_terms(rng, 2500 if quick else 25000):
         c = case(t, rng, full=True, op=2)
@@ -839,6 +922,8 @@ def distribution(lines):
     kinds = {}
     depth_hist = {}
     for ln in lines:
+        if ln.startswith("(2 3 ("):
+            kinds["source_mutation"] = kinds.get("source_mutation", 0) + 1
         if not (ln.startswith("(2 1 (") or ln.startswith("(2 2 (")):
             continue
         if ln.startswith("(2 2 ("):
